@@ -10,6 +10,8 @@ A program:
    "exit_us": t,                           final ExitMainLoop alarm "X" (preceded by the no-op sentinel alarm "S")
    "more": [{"pre": [op, ...], "exit_us": t}, ...]}   further run() calls on the SAME loop object (loops that allow a
                                            restart): ops issued between the runs, then alarms "S<k>", "X<k>" and run()
+   "shapes": {cbid: shape}, "rets": {cbid: r}   what kind of callable object is registered for cbid (loop_probe.SHAPES, default
+                                           plain function) and what it returns (loop_probe.RETURN_VALUES, default None)
    "fd0": bool                             descriptor key 0 IS file descriptor 0 (real: our pipe dup2()ed over stdin; virtual: fd number 0)
    ("restart": true is the old spelling of "more": [{"pre": [], "exit_us": 5000}])
 ops (times in microseconds):
@@ -25,7 +27,7 @@ import os
 import select
 import time
 
-from vmon.monitors.loop_probe import EXC_KINDS, Boom, make_exception, FakeFile, FakePoller, FakeSelectorsModule, FakeTimeModule, PollerProxy, Probe, VirtualOS, WaitRecorder
+from vmon.monitors.loop_probe import EXC_KINDS, RETURN_VALUES, SHAPES, Boom, make_exception, FakeFile, FakePoller, FakeSelectorsModule, FakeTimeModule, PollerProxy, Probe, VirtualOS, WaitRecorder
 
 LOOPS = ("select", "zmq", "asyncio", "tornado", "twisted", "trio")
 VIRTUAL_LOOPS = ("select", "zmq")
@@ -281,6 +283,8 @@ def execute(prog) -> list[dict]:
         probe = Probe(env.loop, env.clock, env.readable)
         env.attach(probe)
         cbs = prog.get("cbs", {})
+        shapes = prog.get("shapes", {})
+        rets = prog.get("rets", {})
         nodrain = set(prog.get("nodrain", ()))
         fd_of = {}  # watch cbid -> fd key
         active_watch = {}  # fd key -> cbid  (client-side knowledge, used only as a validity filter)
@@ -305,7 +309,7 @@ def execute(prog) -> list[dict]:
                         probe.rec(e="skip", op="alarm", id=op[1])
                         continue
                     registered.add(op[1])
-                    probe.alarm(op[1], op[2] / 1e6, body)
+                    probe.alarm(op[1], op[2] / 1e6, body, shapes.get(op[1], "function"), rets.get(op[1], "none"))
                 elif k == "rm_alarm":
                     probe.remove_alarm(op[1])
                 elif k == "watch":
@@ -315,7 +319,7 @@ def execute(prog) -> list[dict]:
                     registered.add(op[1])
                     fd_of[op[1]] = op[2]
                     active_watch[op[2]] = op[1]
-                    probe.watch_file(op[1], op[2], env.fdobj(op[2]), body)
+                    probe.watch_file(op[1], op[2], env.fdobj(op[2]), body, shapes.get(op[1], "function"), rets.get(op[1], "none"))
                 elif k == "rm_watch":
                     fdk = fd_of.get(op[1])
                     if fdk is not None and active_watch.get(fdk, op[1]) != op[1]:
@@ -331,7 +335,7 @@ def execute(prog) -> list[dict]:
                         probe.rec(e="skip", op="enter_idle", id=op[1])
                         continue
                     registered.add(op[1])
-                    probe.enter_idle(op[1], body)
+                    probe.enter_idle(op[1], body, shapes.get(op[1], "function"), rets.get(op[1], "none"))
                 elif k == "rm_idle":
                     probe.remove_enter_idle(op[1])
                 elif k == "write":
@@ -343,7 +347,12 @@ def execute(prog) -> list[dict]:
                 elif k == "raise":
                     if op[1] == "exit":
                         raise ExitMainLoop
-                    raise make_exception(op[1], f"{cbid}#{n}")
+                    kind = op[1]
+                    if kind == "stopiteration" and shapes.get(cbid) == "builtin":
+                        # the builtin shape is callable_iterator.__next__, which swallows a StopIteration raised by the
+                        # function it calls and raises a fresh one: an artefact of the harness, not of the loop
+                        kind = "boom"
+                    raise make_exception(kind, f"{cbid}#{n}")
                 else:
                     raise AssertionError(op)
 
@@ -542,6 +551,12 @@ def gen_random(rng, loop, mode, zmq_fractional=False):
     prog["restart"] = False
     if nfd and rng.random() < 0.35:
         prog["fd0"] = True
+    if rng.random() < 0.5:
+        ids = [x for x in list(cbs) + alarms + [w for w, _k in watches] + idles]
+        prog["shapes"] = {c: rng.choice(SHAPES) for c in ids if rng.random() < 0.6}
+    if rng.random() < 0.35:
+        ids = [x for x in list(cbs) + alarms + [w for w, _k in watches] + idles]
+        prog["rets"] = {c: rng.choice(list(RETURN_VALUES)) for c in ids if rng.random() < 0.6}
     if loop in RESTARTABLE and rng.random() < 0.3:
         more = []
         for _seg in range(rng.choice([1, 1, 1, 2])):
@@ -699,6 +714,21 @@ def directed(loop, mode):
             P(1, pre, cbs)
             if loop in RESTARTABLE:
                 out[-1]["more"] = [{"pre": [["alarm", "b0", 0]], "exit_us": 5000}]
+    # every callable shape and every return value for alarm, watch and idle callbacks (the watch callback must keep
+    # being called: 3 bytes, one read per call)
+    for shape in SHAPES:
+        pre = [["idle", "i0"], ["alarm", "a0", 0], ["alarm", "a1", 2000], ["watch", "w0", 0], ["write", 0, 3]]
+        P(1, pre, {"a1": [[["alarm", "a2", 1000]]]})
+        out[-1]["shapes"] = {"i0": shape, "a0": shape, "a1": shape, "a2": shape, "w0": shape}
+        P(1, pre, {"a1": [[["raise", "boom"]]]})
+        out[-1]["shapes"] = {"i0": shape, "a0": shape, "a1": shape, "w0": shape}
+    for r in RETURN_VALUES:
+        pre = [["idle", "i0"], ["alarm", "a0", 0], ["alarm", "a1", 2000], ["watch", "w0", 0], ["write", 0, 3]]
+        P(1, pre, {"a1": [[["alarm", "a2", 1000], ["write", 0, 1]]]})
+        out[-1]["rets"] = {"i0": r, "a0": r, "a1": r, "a2": r, "w0": r}
+        P(1, pre, {})
+        out[-1]["rets"] = {"w0": r}
+        out[-1]["shapes"] = {"w0": "partial"}
     kinds_progs = out[n_plain:]
     del out[n_plain:]
     # the same programs with descriptor key 0 being file descriptor 0 (stdin, the descriptor urwid's raw display
@@ -834,6 +864,15 @@ def shrink_candidates(prog):
         p = clone()
         del p["fd0"]
         yield p
+    for key in ("shapes", "rets"):
+        if prog.get(key):
+            p = clone()
+            del p[key]
+            yield p
+            for c in list(prog[key]):
+                p = clone()
+                del p[key][c]
+                yield p
     for k in range(len(prog.get("more", ())) - 1, -1, -1):
         if k == len(prog["more"]) - 1:
             p = clone()
